@@ -11,9 +11,10 @@ Quirks kept: a leading ID3v2 tag is skipped by its size field only; the SV8 pack
 the lexicographic `b'AA' <= key <= b'ZZ'`; only SH and RG are looked at and the loop stops as
 soon as both were seen (or at AP/SE); the replay-gain peaks are read as *signed* shorts; SV7
 accepts the version nibbles 7..15, ignores the true-gapless field and always uses
-`frames·1152 - 576`; the relative seek over an uninteresting packet raises `OverflowError`
-("new position too large") on a BytesIO when position + size exceeds 2^63 - 1 (an OSError, hence
-`MusepackHeaderError`, on a real file) — see `Mutagen.C05.mpc_sv8_huge_packet_overflow`.
+`frames·1152 - 576`; the relative seek over an uninteresting packet fails on a BytesIO when
+position + size exceeds 2^63 - 1 (`OverflowError`, caught and turned into `MusepackHeaderError`
+since /repo a1d2e75; an OSError, hence also `MusepackHeaderError`, on a real file) — see
+`Mutagen.C05.mpc_sv8_huge_packet_overflow`.
 -/
 import MutagenModel.Model.Info.Rd
 import MutagenModel.Generated.Tables
@@ -138,7 +139,7 @@ def sv8Loop (f : Bytes) : Nat → Nat → Bytes → Bool → Bool → Sv8 → Ex
             else if frameType = keyRG then
               if ¬ needRG then .error .mutagen
               else (parseRG f p dataSize a).map fun r => (needSH, false, r.1, r.2)
-            else if p + dataSize > 2 ^ 63 - 1 then .error .overflow
+            else if p + dataSize > 2 ^ 63 - 1 then .error .mutagen
             else .ok (needSH, needRG, a, p + dataSize)
           match step with
           | .error e => .error e
